@@ -370,3 +370,31 @@ def run(ck):
               "a write that was parked by a would-block is resumed: nothing after the drain pass of the writable arm of onReady takes the "
               "write interest away again that the would-block arm has just armed -- otherwise the unsent tail and everything queued behind "
               "it never reach the peer", key_pred=lambda k: k.startswith("onReady/"), min_instances=2)
+
+    # ---------------- R9: who may take something out of the pending-write table ----------------
+    ck.rule("C06-R9", "D who-may-write (removing operations)",
+            "entries leave Transport::toWrite only where the write they stand for has been dealt with: the drain routine (asyncWriteImpl and "
+            "its clean-up lambda: fully sent, or failed and rejected) and the release path (removePeer). erase / clear / pop / assignment of "
+            "the table, of a queue in it, or of an alias of either anywhere else drops bytes that were queued for the peer and leaves their "
+            "promises unsettled -- whatever lock is held", 3)
+    REMOVERS = ("erase", "clear", "pop_front", "pop_back", "swap", "operator=", "assign", "resize", "shrink_to_fit", "extract")
+    OWNERS = (T + "asyncWriteImpl", T + "removePeer")
+    for f in prog.funcs.values():
+        if not (f.file.endswith("/common/transport.cc") or f.file.endswith("/pistache/transport.h")):
+            continue
+        alias = {d["var"] for d in f.events("decl") if ("f:" + T + "toWrite") in [strip_tmpl(r) for r in (d.get("refs") or [])]}
+        for e in f.events("call"):
+            nm = strip_tmpl(e.get("callee") or "").rsplit("::", 1)[-1]
+            if nm not in REMOVERS:
+                continue
+            rv = e.get("recv") or {}
+            into = strip_tmpl(rv.get("f") or "") == T + "toWrite" or "toWrite" in (rv.get("t") or "") or \
+                (rv.get("root") in alias and rv.get("root") is not None) or (rv.get("v") in alias and rv.get("v") is not None)
+            if not into:
+                continue
+            own = prog.owner(f)
+            ok = own.base in OWNERS
+            ck.ob("C06-R9", "%s: %s" % (own.base.replace(T, ""), nm), ok, e.loc, f,
+                  "in the drain routine / the release path" if ok else
+                  "`%s` in %s removes pending writes outside the drain routine and the release path: the bytes never reach the peer and their promises are never settled"
+                  % ((e.get("t") or "")[:60], own.name))
